@@ -409,6 +409,12 @@ func c19Multi(o *Out, r *Rng, c int) {
 		}
 		refs = append(refs, rp[0])
 	}
+	if len(refs) == 3 && r.chance(0.25) {
+		// "ideal1" then "ideal": the second gets prefix count 1, candidate ...ideal1 is in use, NotUsedName
+		// must count on to ...ideal2
+		refs[0].Id, refs[2].Id = "ideal1", "ideal"
+		o.count("multi:name-candidate-in-use")
+	}
 	lossDef := anchoring.FunctionDefinition{Function: asMap(pm["loss"])["function"].(string), Params: asMap(pm["loss"])["params"]}
 	gainDef := anchoring.FunctionDefinition{Function: asMap(pm["gain"])["function"].(string), Params: asMap(pm["gain"])["params"]}
 	ap := asMap(pm["applier"])
